@@ -1,4 +1,5 @@
 import PyecoreModel.Model.Store
+import PyecoreModel.Model.StoreNav
 /-! Line protocol for the Store model (C01 C02 C03 C05 C07 C11 C19).  Same records as `harness/store.py::World`. -/
 namespace Store.Proto
 open Store
@@ -82,6 +83,46 @@ def parseOp (ws : List String) : Option Op :=
   | "assign" :: x :: f :: vs => do pure (.assign (← x.toNat?) (← f.toNat?) (← parseVals vs))
   | _ => none
 
+def renderPath (p : Path) : String :=
+  let root := match p.root with | none => "/" | some k => s!"/{k}"
+  root ++ "".intercalate (p.segs.map fun (f, i) => match i with
+    | none => s!"/@f{f}"
+    | some k => s!"/@f{f}.{k}")
+
+/-- `extract_rootnum_and_frag` + the segment syntax of `_navigate_from` (feature names are `f<fid>`) -/
+def parsePath (t : String) : Option Path :=
+  let parts := (t.splitOn "/").filter (· ≠ "")
+  let (root, rest) := match parts with
+    | h :: tl => match h.toNat? with
+      | some k => (some k, tl)
+      | none => (none, parts)
+    | [] => (none, [])
+  let segs := rest.mapM fun seg =>
+    if seg.startsWith "@f" then
+      match (seg.drop 2).toString.splitOn "." with
+      | [f] => f.toNat?.map fun f => (f, none)
+      | [f, i] => do pure ((← f.toNat?), some (← i.toNat?))
+      | _ => none
+    else none
+  segs.map fun sg => { root := root, segs := sg }
+
+def fmtOids (l : List Oid) : String := ",".intercalate (l.map toString)
+
+def query (p : S) (ws : List String) : Option String :=
+  let mm := p.mm
+  let s := p.st
+  match ws with
+  | ["frag", o] => o.toNat?.map fun o => renderPath (frag mm s s.nObj o)
+  | ["resolve", r, t] => do
+    let r ← r.toNat?
+    match parsePath t with
+    | none => pure "unparsed"
+    | some path => pure (match resolve mm s r path with | some o => s!"o:{o}" | none => "none")
+  | ["contents", o] => o.toNat?.map fun o => fmtOids ((children mm s o).mergeSort (· ≤ ·))
+  | ["allcontents", o] => o.toNat?.map fun o => fmtOids ((eAllContents mm s o).mergeSort (· ≤ ·))
+  | ["root", o] => o.toNat?.map fun o => s!"o:{eRoot s s.nObj o}"
+  | _ => none
+
 def b01 (s : Option String) : Bool := s == some "1"
 
 def step (p : S) (line : String) : S × String :=
@@ -110,6 +151,7 @@ def step (p : S) (line : String) : S × String :=
           | some v => some v }
     ({ p with feats := p.feats.push F }, "ok")
   | ["mm", "end"] => (p, "ok")
+  | "q" :: rest => (p, match query p rest with | some r => r | none => "bad-op")
   | _ =>
     match parseOp ws with
     | none => (p, "bad-op")
